@@ -517,7 +517,10 @@ def report(rec, name, clause, single, detail, confirm, fallback):
             rec.count("chain_violation_not_minimised")
             rec.violation(name, clause, fallback, detail)
             return
-    raise RuntimeError(f"violation {name}|{clause} did not reproduce on re-execution: {single!r} ({detail})")
+    # depends on what ran before in this process (hidden state) or is nondeterministic:
+    # the harness re-executes every reported violation (case, then whole shard in a fresh process) and decides
+    rec.count("diverged_on_immediate_reexecution")
+    rec.violation(name, clause, single, detail)
 
 
 def run_case(case, rec, confirm=True, outcomes=None):
